@@ -42,6 +42,8 @@ impl Form {
     }
     pub fn source(self, program: &crate::prog::Expr) -> String {
         match self {
+            // (half of them, chosen by the program itself, without any blanks)
+            Form::ParsedLoose if program.size() % 2 == 0 => program.render_tight(),
             Form::ParsedLoose => program.render_loose(),
             _ => program.render(),
         }
@@ -222,6 +224,20 @@ fn finding(
     }
 }
 
+/// The tree the reference interpreter walks. For an assembled case: the tree under test. For a
+/// case given as source text: the program's own structure, assembled without the tokenizer and
+/// the tree builder. "Exactly once, in source order" is a statement about the elements of the
+/// source text: a tree builder that duplicates or reorders an element evaluates its own tree
+/// faithfully and still breaks it. (The renderer is checked against the parser by this very
+/// comparison: on the unchanged tree every rendered program evaluates like its structure.)
+pub fn reference_tree(case: &Case, tree: &Node) -> Node {
+    if case.form.is_parsed() && case.program.is_renderable() {
+        case.program.assemble(true)
+    } else {
+        tree.clone()
+    }
+}
+
 /// Executes one fault plan of one case and applies the oracle of `prop`.
 pub fn check_plan(
     case: &Case,
@@ -231,9 +247,11 @@ pub fn check_plan(
     prop: Prop,
     cx: &mut Ctx,
 ) -> PlanResult {
+    let rtree_owned = reference_tree(case, tree);
+    let rtree = &rtree_owned;
     let kind = case.kind;
     // -------- mutable path against the reference (the C08 oracle; C11 needs its verdict too)
-    let r_mut = match run_ref(tree, &case.setup, kind, false, case.typed, faults, cx.delegate) {
+    let r_mut = match run_ref(rtree, &case.setup, kind, false, case.typed, faults, cx.delegate) {
         Ok(o) => o,
         Err(_) => {
             cx.stats.inc("skipped_by_reference");
@@ -259,7 +277,7 @@ pub fn check_plan(
         if f.is_none() {
             // the read-only evaluator is an evaluator too: same order, same stopping rule
             // (assignments end it with ContextNotMutable once their operands are evaluated)
-            if let Ok(r_imm) = run_ref(tree, &case.setup, kind, true, case.typed, faults, cx.delegate) {
+            if let Ok(r_imm) = run_ref(rtree, &case.setup, kind, true, case.typed, faults, cx.delegate) {
                 let o_imm = run_real(tree, src, &case.setup, kind, Path::Imm, case.entry, case.typed, faults);
                 cx.stats.inc("evaluations_real");
                 cx.stats.inc("c08.read_only_path_checked");
@@ -282,7 +300,7 @@ pub fn check_plan(
     let (init_vars, init_fns) = initial_snapshot(&case.setup, kind);
     // (1) never mutates
     if o_imm.panicked {
-        let r_imm = run_ref(tree, &case.setup, kind, true, case.typed, faults, cx.delegate).ok();
+        let r_imm = run_ref(rtree, &case.setup, kind, true, case.typed, faults, cx.delegate).ok();
         let exp = r_imm.unwrap_or_else(|| o_mut.clone());
         return PlanResult {
             finding: Some(finding(prop, "panic", "immutable-path", faults, &exp, &o_imm)),
@@ -391,7 +409,7 @@ pub fn check_plan(
             cx.stats.inc("c11.skipped_mutable_deviates");
         } else {
             cx.stats.inc("c11.assignment_trees");
-            if let Ok(r_imm) = run_ref(tree, &case.setup, kind, true, case.typed, faults, cx.delegate) {
+            if let Ok(r_imm) = run_ref(rtree, &case.setup, kind, true, case.typed, faults, cx.delegate) {
                 if r_imm.result.contains("ContextNotMutable") {
                     cx.stats.inc("c11.projected_to_context_not_mutable");
                 } else {
@@ -429,6 +447,8 @@ pub fn check_plan(
 /// agrees with the reference on this program (on the primary context kind - the caller checks
 /// that - and on the storeless context); otherwise the deviation is C08's business.
 pub fn check_storeless(case: &Case, tree: &Node, src: Option<&str>, cx: &mut Ctx) -> Option<Finding> {
+    let rtree_owned = reference_tree(case, tree);
+    let rtree = &rtree_owned;
     let prop = Prop::C11;
     // --- the default `set_value`: every assignment is refused, after its operands (and, for an
     // operator-assignment, the read and the plain operator) were evaluated
@@ -464,12 +484,12 @@ pub fn check_storeless(case: &Case, tree: &Node, src: Option<&str>, cx: &mut Ctx
             ));
         }
     }
-    let r_mut = run_ref(tree, &case.setup, CtxKind::NoStore, false, case.typed, &[], cx.delegate).ok()?;
+    let r_mut = run_ref(rtree, &case.setup, CtxKind::NoStore, false, case.typed, &[], cx.delegate).ok()?;
     if diff_class(&r_mut, &o_mut, true).is_some() {
         cx.stats.inc("c11.skipped_mutable_deviates");
         return None;
     }
-    let r_imm = run_ref(tree, &case.setup, CtxKind::NoStore, true, case.typed, &[], cx.delegate).ok()?;
+    let r_imm = run_ref(rtree, &case.setup, CtxKind::NoStore, true, case.typed, &[], cx.delegate).ok()?;
     if let Some(class) = diff_class(&r_imm, &o_imm, true) {
         return Some(finding(prop, class, "storeless-context(default set_value)", &[], &r_imm, &o_imm));
     }
@@ -488,7 +508,7 @@ pub fn check_storeless(case: &Case, tree: &Node, src: Option<&str>, cx: &mut Ctx
             builtins_disabled: kind == CtxKind::Empty,
             aging: 0,
         };
-        let rw = match run_ref(tree, &witness_setup, CtxKind::NoStore, false, case.typed, &[], cx.delegate) {
+        let rw = match run_ref(rtree, &witness_setup, CtxKind::NoStore, false, case.typed, &[], cx.delegate) {
             Ok(r) => r,
             Err(_) => continue,
         };
@@ -498,7 +518,7 @@ pub fn check_storeless(case: &Case, tree: &Node, src: Option<&str>, cx: &mut Ctx
             cx.stats.inc("c11.skipped_mutable_deviates");
             continue;
         }
-        let r = match run_ref(tree, &empty_setup, kind, true, case.typed, &[], cx.delegate) {
+        let r = match run_ref(rtree, &empty_setup, kind, true, case.typed, &[], cx.delegate) {
             Ok(r) => r,
             Err(_) => continue,
         };
